@@ -75,7 +75,7 @@ def consuming_cases(tier, rng):
 def nontrivial(case, out):
     return ('VB true' in out or 'V2 1' in out)
 
-STAGES = [dict(name='ui', mode='app', coq='Check.C15c', cases=cases, nontrivial=nontrivial, shard=6,
+STAGES = [dict(name='ui', mode='app', coq='Check.C15c', profile=('Proofs.JudgeProfiles', 'JudgeProfiles.prof_C15', 'C16_app_judgement_sound_all (C16_app_judgement_sound / _transfer for non-consuming profiles)'), cases=cases, nontrivial=nontrivial, shard=6,
                exhaustive={'thorough': True, 'quick': True},
                rule='two contexts with mouse, keyboard and gamepad bindings (with and without modifier masks), all inputs held; UI entities carrying bevy_ui Interaction: '
                     'every sequence of length 2 (quick) / 3 (thorough) of (none, hovered, pressed) for two elements, each followed by an idle frame; elements disappearing while hovered or pressed (despawn / component removed) and re-appearing; a context inserted or rebuilt while the UI is hovered and the mouse is held; random scripts with 0-3 elements whose number changes from frame to frame; a consuming context above a listening one on keyboard, gamepad and mouse inputs with elements hovered / pressed; '
